@@ -263,7 +263,8 @@ def main(run):
     # the fixtures expect the build environment of ESP-IDF; unresolved environment variables are left open
     for var, val in (("IDF_TARGET", "esp32"), ("IDF_PATH", REPO), ("IDF_VERSION", "5.0"), ("IDF_ENV_FPGA", ""), ("IDF_CI_BUILD", "")):
         os.environ.setdefault(var, val)
-    for path in sorted(glob.glob(os.path.join(REPO, "test", "**", "Kconfig*"), recursive=True)):
+    own = sorted(glob.glob(os.path.join(os.path.dirname(os.path.dirname(os.path.abspath(__file__))), "fixtures", "c04", "Kconfig*")))
+    for path in own + sorted(glob.glob(os.path.join(REPO, "test", "**", "Kconfig*"), recursive=True)):
         if not os.path.isfile(path) or path.endswith((".new", ".in.out")):
             continue
         try:
